@@ -1856,3 +1856,19 @@ theorem readAllRest_blank_iff (n : Nat) (hn : 0 < n) (mode : Mode) (file : Bytes
   simp
 
 end C01
+
+namespace C01
+
+/-- **C01.count_entries_chunks** — `bnp.count_entries` adds up the entry counts of the buffers of a chunked read: for
+FASTQ / two-line FASTA / delimited files made of whole records, every chunk size and both modes, that sum is the number of
+entries of the terminated file. -/
+theorem count_entries_chunks (n : Nat) (hn : 0 < n) (mode : Mode) (file : Bytes)
+    (hwf : n ∣ countNL (norm file)) (k : Nat) (hk : 0 < k) :
+    ((readAll (Fmt.kLine n) true mode file k).map (fun c => (entriesK n c).length)).sum = (entriesK n (norm file)).length := by
+  have h := congrArg List.length (entries_chunks_kLine n hn mode file hwf k hk)
+  rw [List.length_flatten, List.map_map] at h
+  exact h
+
+example : ((readAll (Fmt.kLine 2) true .seek [62,97,10,65,10,62,98,10,67,10] 3).map (fun c => (entriesK 2 c).length)).sum = 2 := by decide
+
+end C01
